@@ -56,7 +56,8 @@ func (f *Tagbody) Call(s *slip.Scope, args slip.List, depth int) slip.Object {
 			continue
 		}
 		if gt, _ := slip.EvalArg(ns, args, i, d2).(*GoTo); gt != nil {
-			for i++; i < len(args); i++ {
+			// The tag can be before or after the go form.
+			for i = 0; i < len(args); i++ {
 				if args[i] == gt.Tag {
 					break
 				}
